@@ -86,6 +86,22 @@ void __wrap_psAesEncryptGCM(psAesGcm_t *ctx, const unsigned char *pt, unsigned c
     if (s >= 0) g_ctx[s].ready = 0;
     __real_psAesEncryptGCM(ctx, pt, ct, len);
 }
+/* A seal is Ready + [Encrypt] + GetTag.  A tag taken from a context that was readied but never encrypted anything is a seal of
+   the empty plaintext under that nonce (the library's decrypt path takes its tag inside psAesDecryptGCM, not through this symbol). */
+void __real_psAesGetGCMTag(psAesGcm_t *ctx, uint8_t tagBytes, unsigned char tag[AES_BLOCKLEN]);
+void __wrap_psAesGetGCMTag(psAesGcm_t *ctx, uint8_t tagBytes, unsigned char tag[AES_BLOCKLEN])
+{
+    int s = ctx_slot(ctx, 0);
+    if (s >= 0 && g_ctx[s].ready) { add_entry(g_ctx[s].key_id, g_ctx[s].nonce, g_ctx[s].aad_h, (const unsigned char *) "", 0, 1, g_ctx[s].aad, 16); g_ctx[s].ready = 0; }
+    __real_psAesGetGCMTag(ctx, tagBytes, tag);
+}
+int32_t __real_psAesDecryptGCM(psAesGcm_t *ctx, const unsigned char *ct, uint32_t ctLen, unsigned char *pt, uint32_t ptLen);
+int32_t __wrap_psAesDecryptGCM(psAesGcm_t *ctx, const unsigned char *ct, uint32_t ctLen, unsigned char *pt, uint32_t ptLen)
+{
+    int s = ctx_slot(ctx, 0);
+    if (s >= 0) g_ctx[s].ready = 0;
+    return __real_psAesDecryptGCM(ctx, ct, ctLen, pt, ptLen);
+}
 psRes_t __real_psChacha20Poly1305IetfInit(psChacha20Poly1305Ietf_t *ctx, const unsigned char *key);
 psRes_t __wrap_psChacha20Poly1305IetfInit(psChacha20Poly1305Ietf_t *ctx, const unsigned char *key)
 {
